@@ -331,6 +331,26 @@ func (P *Program) modExprKeys(m ast.Expr, env map[string]types.Type, out map[str
 		}
 		return false
 	case *ast.SelectorExpr:
+		if ce, ok := ex.X.(*ast.CallExpr); ok {
+			if id, ok := ce.Fun.(*ast.Ident); ok && id.Name == "allof" && len(ce.Args) == 1 {
+				pkg := P.pkgOf(env["$pkg"].(*pkgMarker).path)
+				t, err := P.resolveType(ce.Args[0], pkg)
+				if err != nil {
+					return false
+				}
+				stt, ok := structOf(t)
+				if !ok {
+					return false
+				}
+				for i := 0; i < stt.NumFields(); i++ {
+					if stt.Field(i).Name() == ex.Sel.Name {
+						keysOfField(t, i, out)
+						return true
+					}
+				}
+				return false
+			}
+		}
 		t := P.staticType(ex.X, env)
 		if t == nil {
 			return false
